@@ -699,6 +699,13 @@ func Run(p *Property, o Options) int {
 			"notes":                notes,
 		},
 	}
+	if checkerCmd == "" {
+		checkerCmd = fmt.Sprintf("cd %s && lake build driver %s %s", LeanDir(), p.PropsModule, p.TieModule)
+	}
+	ev["coverage"].(map[string]interface{})["checker_cmd"] = checkerCmd
+	if p.Assumptions == nil {
+		ev["assumptions"] = []string{}
+	}
 	os.MkdirAll(filepath.Join(root, "evidence"), 0o755)
 	writeJSON(filepath.Join(root, "evidence", p.ID+".json"), ev)
 	if exit == 0 {
